@@ -191,6 +191,7 @@ def run(chk: Check, drv: Driver):
                 spy.entered = 0
                 exc = None
                 result = None
+                chk.mark(pr.case(variant=label, sizes=sizes))
                 try:
                     result = tm(**build_kwargs(desc))
                 except BaseException as e:  # noqa: BLE001
